@@ -88,14 +88,14 @@ func c19Work(seed uint64, kp *keys.Pair) c19Result {
 		_ = cp.InterpolateMatrixPermutation(perm) // errors (skipped, unknown tokens) are part of the result via the marshalled form
 		_ = pipeline.Plugin{Source: "docker#v1"}.Source
 	})
-	jb, err := json.Marshal(p)
+	jb, err := safeJSONMarshal(p)
 	if err != nil {
 		res.Err = "json: " + err.Error()
 		return res
 	}
 	res.JSON = string(jb)
 	if jn, _ := doc.FromJSON(jb); jn != nil && !leadingWSMultiline(jn) {
-		yb, err := yaml.Marshal(p)
+		yb, err := safeYAMLMarshal(p)
 		if err != nil {
 			res.Err = "yaml: " + err.Error()
 			return res
@@ -206,7 +206,7 @@ func c19BuildOne(r *rand.Rand, kp *keys.Pair, observe bool) (*c19Shared, error) 
 	}
 	// pipeline
 	for {
-		d, err := gen.Pipeline(r, gen.PipeOpts{Str: gen.StringOpts{}, NoTime: true, SmallInts: true, MaxSteps: 6}.NoSweep())
+		d, err := gen.Pipeline(r, gen.PipeOpts{Str: gen.StringOpts{}, NoTime: true, SmallInts: true, MaxSteps: 6, BigMaps: true}.NoSweep())
 		if err != nil || d.NCommand < 2 {
 			continue
 		}
@@ -225,12 +225,12 @@ func c19BuildOne(r *rand.Rand, kp *keys.Pair, observe bool) (*c19Shared, error) 
 		return nil, err
 	}
 	if observe {
-		pj, err := json.Marshal(s.pipe)
+		pj, err := safeJSONMarshal(s.pipe)
 		if err != nil {
 			return nil, err
 		}
 		s.pipeJSON = string(pj)
-		py, err := yaml.Marshal(s.pipe)
+		py, err := safeYAMLMarshal(s.pipe)
 		if err != nil {
 			return nil, err
 		}
@@ -437,7 +437,15 @@ func checkC19(c *run.Ctx) {
 
 	// ---- (B) shared read-only objects under concurrent observers
 	sh, err := c19BuildShared(uint64(c.Seed), kp)
-	must(c, err)
+	if err != nil {
+		// on a correct tree the fixtures (a parsed and signed pipeline, a map) always build and marshal
+		c.Violation("shared/build", map[string]any{"what": "a parsed and signed pipeline could not be observed sequentially (JSON then YAML marshalling): " + err.Error()})
+		c.Sample(map[string]any{"note": "fixture build failed"})
+		c.Feature("failed", 1)
+		c.Feature("failed", 2)
+		c.Eval(1)
+		c.Finish("exploration", "fixture build failed", nil, nil)
+	}
 	var inflight, maxInflight int64
 	var inflightMask uint64
 	var overlap [17][17]int64
@@ -452,6 +460,9 @@ func checkC19(c *run.Ctx) {
 				if err == nil {
 					sh = nsh
 					c.Count("fresh_shared_fixtures", 1)
+				} else {
+					c.Violation(fmt.Sprintf("shared/build-%d", round), map[string]any{"what": "a parsed and signed pipeline could not be observed sequentially (JSON then YAML marshalling): " + err.Error()})
+					break
 				}
 			}
 			var wg sync.WaitGroup
